@@ -7,6 +7,7 @@ require (
 	github.com/anishathalye/porcupine v1.3.0
 	github.com/miekg/dns v1.1.62
 	github.com/prometheus/client_golang v1.20.5
+	github.com/prometheus/client_model v0.6.1
 	github.com/quic-go/quic-go v0.48.2
 	go.uber.org/zap v1.27.0
 	google.golang.org/protobuf v1.35.2
@@ -31,7 +32,6 @@ require (
 	github.com/munnerz/goautoneg v0.0.0-20191010083416-a7dc8b61c822 // indirect
 	github.com/nadoo/ipset v0.5.0 // indirect
 	github.com/pelletier/go-toml/v2 v2.2.3 // indirect
-	github.com/prometheus/client_model v0.6.1 // indirect
 	github.com/prometheus/common v0.61.0 // indirect
 	github.com/prometheus/procfs v0.15.1 // indirect
 	github.com/quic-go/qpack v0.5.1 // indirect
